@@ -737,6 +737,13 @@ def t_function_identity():
     table = {int: f}
     g = table[int]
     return (g is f, table.get(int) is f, table.get(str) is f)
+def t_sets_of_types():
+    ORDERABLE = frozenset([str, bytes, int])
+    d = {'a': 1, 'b': 2}
+    e = {'a': 1, 2: 2}
+    kd = set(map(type, d.keys()))
+    ke = set(map(type, e.keys()))
+    return (len(kd), len(ke), kd <= ORDERABLE, ke <= ORDERABLE, len(kd) == 1 and kd <= ORDERABLE, set(map(type, [1j, 2j])) <= ORDERABLE, type(1) in ORDERABLE)
 '''
 
 
